@@ -32,6 +32,7 @@
 #define NTK 3
 #define NEV 2
 #define NRAW 1
+#undef NSIG
 #define NSIG 2
 #define NWK 2
 
@@ -64,8 +65,9 @@ struct fdslot {
 	int called_iter[3];
 	int reported;           /* band mask allowed by the events the kernel returned at the last wait */
 	int touched;            /* handlers changed since the last wait entry */
+	int drained_iter;       /* data consumed since the last wait entry */
 };
-struct tmslot { struct iv_timer *p; int reg, gen; struct timespec exp; int fired_gen; };
+struct tmslot { struct iv_timer *p; int reg, gen; struct timespec exp; int fired_gen; int overdue_polls; };
 struct tkslot { struct iv_task *p; int reg, gen; int ran_iter; int reg_from_ran; };
 struct evslot { struct iv_event *p; int reg, gen; int pending; };
 struct rawslot { struct iv_event_raw *p; int reg, gen; int pending; };
@@ -88,6 +90,9 @@ static int fault_eintr_wait, fault_eintr_io, fault_emfile, fault_sc;
 static const char *rules;
 static int use_hash;
 static int nofree, tkkeep;
+static int poison = 0xbe;
+static struct iv_fd *fd_reuse[NFD];
+static long long drift_ns;
 
 /* run state */
 static int iter;                 /* wait entries so far */
@@ -98,6 +103,7 @@ static struct timespec last_wait_time;
 static int method_idx;
 static int main_returned;
 static int empty_polls;
+static int autotask_left;
 static int cycle, cycles;
 
 static int rule_on(const char *r)
@@ -139,6 +145,7 @@ static const char *tmclass[12] = { "zero", "past", "now", "+1ns", "+10ms", "far"
 #define NFDPRESET 5     /* handler presets at registration */
 static const int fdpreset[NFDPRESET][3] = { { 1, 0, 0 }, { 0, 0, 0 }, { 1, 1, 1 }, { 0, 1, 0 }, { 0, 0, 1 } };
 
+static int fd_truth(struct fdslot *f);
 static void (*fd_handlers[3][3])(void *);
 static void tm_cb(void *), tk_cb(void *), ev_cb(void *), raw_cb(void *), sig_cb(void *), wk_work(void *), wk_done(void *);
 
@@ -171,7 +178,8 @@ static int model_count(void)
 static void fd_newsock(struct fdslot *f)
 {
 	int sv[2];
-	if (f->lfd >= 0)
+	/* with nofree=1 (C03's struct-reuse runs) the old descriptor stays open, as a dup()ed or leaked descriptor would */
+	if (f->lfd >= 0 && !nofree)
 		close(f->lfd);
 	if (f->pfd >= 0)
 		close(f->pfd);
@@ -312,6 +320,9 @@ static void fd_free(struct fdslot *f)
 	if (!nofree) {
 		memset(f->p, 0xbe, sizeof(*f->p));
 		free(f->p);
+	} else if (!fd_reuse[f - F]) {
+		/* struct reuse after unregister: the next registration of this slot lives in the same memory */
+		fd_reuse[f - F] = f->p;
 	}
 	f->p = NULL;
 }
@@ -328,6 +339,7 @@ static void fd_do_unreg(struct fdslot *f)
 
 static void fd_drain(struct fdslot *f)
 {
+	f->drained_iter = 1;
 	char buf[256];
 	ssize_t r;
 	while ((r = recv(f->lfd, buf, sizeof(buf), MSG_DONTWAIT)) > 0)
@@ -366,8 +378,15 @@ static void perform(const struct act *a)
 		int b, ret = 0, badfd = -1, flags;
 		if (f->lfd < 0 || f->peer_closed)
 			fd_newsock(f);
-		f->p = malloc(sizeof(struct iv_fd));
-		memset(f->p, 0xbe, sizeof(struct iv_fd));
+		if (fd_reuse[a->a]) {
+			/* the very struct whose registration failed before is initialised again and re-used */
+			f->p = fd_reuse[a->a];
+			fd_reuse[a->a] = NULL;
+			mc_obs("reuse-struct");
+		} else {
+			f->p = malloc(sizeof(struct iv_fd));
+			memset(f->p, poison, sizeof(struct iv_fd));
+		}
 		IV_FD_INIT(f->p);
 		f->gen++;
 		f->p->cookie = new_cookie(KD_FD, a->a, f->gen);
@@ -409,7 +428,8 @@ static void perform(const struct act *a)
 						FAIL("failed-register-side-effect", "iv_fd_registered() true after failed iv_fd_register_try");
 					if (iv_get_state()->numobjs != objs_before)
 						FAIL("failed-register-side-effect", "loop object count changed by a failed iv_fd_register_try");
-					fd_free(f);
+					fd_reuse[a->a] = f->p;
+					f->p = NULL;
 					memset(f->hv, 0, sizeof(f->hv));
 					mc_obs("tryfail");
 					break;
@@ -462,6 +482,7 @@ static void perform(const struct act *a)
 		while (send(F[a->a].lfd, buf, sizeof(buf), MSG_DONTWAIT | MSG_NOSIGNAL) > 0)
 			;
 		F[a->a].filled = 1;
+		F[a->a].drained_iter = 1;
 		break;
 	}
 	case OP_FD_UNFILL: {
@@ -469,6 +490,7 @@ static void perform(const struct act *a)
 		while (recv(F[a->a].pfd, buf, sizeof(buf), MSG_DONTWAIT) > 0)
 			;
 		F[a->a].filled = 0;
+		F[a->a].drained_iter = 1;
 		break;
 	}
 	case OP_FD_PCLOSE:
@@ -492,6 +514,7 @@ static void perform(const struct act *a)
 		t->p->handler = tm_cb;
 		iv_timer_register(t->p);
 		t->reg = 1;
+		t->overdue_polls = 0;
 		break;
 	}
 	case OP_TM_UNREG: {
@@ -755,6 +778,7 @@ static void fd_default(void *_x)
 	ssize_t r;
 	switch (x->band) {
 	case B_IN:
+		f->drained_iter = 1;
 		/* typical reader: consume; on EOF / error drop the descriptor */
 		for (;;) {
 			r = recv(f->lfd, buf, sizeof(buf), MSG_DONTWAIT);
@@ -799,6 +823,12 @@ static void fd_cb(void *_ck, int band, int variant)
 		FAIL("fd-wrong-handler", "fd%d band %d invoked through handler variant %d, installed is %d", ck->slot, band, variant, f->hv[band]);
 	if (!(f->reported & need[band]))
 		FAIL("fd-spurious", "%s handler of fd%d invoked but the preceding kernel poll did not report that band (reported mask %d)", lbl[band], ck->slot, f->reported);
+	if (!f->touched && !f->drained_iter) {
+		/* nothing touched this descriptor since the poll: the kernel condition itself must still hold */
+		int truth = fd_truth(f);
+		if (!(truth & need[band]))
+			FAIL("fd-spurious", "%s handler of fd%d invoked although the kernel condition for that band does not hold on this descriptor (poll(2) says mask %d)", lbl[band], ck->slot, truth);
+	}
 	if (f->called_iter[band] == iter)
 		FAIL("fd-twice", "%s handler of fd%d invoked twice in one loop iteration", lbl[band], ck->slot);
 	f->called_iter[band] = iter;
@@ -852,6 +882,14 @@ static void tk_cb(void *_ck)
 		memset(k->p, 0xbe, sizeof(struct iv_task));
 		free(k->p);
 		k->p = NULL;
+	}
+	if (ck->slot == 0 && autotask_left > 0) {
+		/* scripted application (cost 0): a task that keeps re-registering itself */
+		struct act a = { OP_TK_REG, 0, 0, 0 };
+		autotask_left--;
+		perform(&a);
+		cb_leave();
+		return;
 	}
 	run_actions("cb-tk", NULL, NULL);
 	cb_leave();
@@ -995,6 +1033,7 @@ static void wait_entry(struct env_wait *w)
 		int truth;
 		f->reported = 0;
 		f->touched = 0;
+		f->drained_iter = 0;
 		if (!f->reg)
 			continue;
 		truth = fd_truth(f);
@@ -1005,6 +1044,17 @@ static void wait_entry(struct env_wait *w)
 			} else {
 				f->unserved[b] = 0;
 			}
+		}
+	}
+	for (i = 0; i < NTM; i++) {
+		/* a timer that was already due at the previous poll must have been run by now */
+		if (T[i].reg && T[i].overdue_polls && env_ts_cmp(&T[i].exp, &env_now) <= 0) {
+			if (++T[i].overdue_polls > 3)
+				FAIL("timer-starved", "timer %d has been due for %d polls and still has not run (tasks / descriptors keep the loop busy)", i, T[i].overdue_polls - 1);
+		} else if (T[i].reg && env_ts_cmp(&T[i].exp, &env_now) <= 0) {
+			T[i].overdue_polls = 1;
+		} else {
+			T[i].overdue_polls = 0;
 		}
 	}
 	mc_obs("w%s", w->timeout_ns < 0 ? "inf" : w->timeout_ns == 0 ? "0" : "t");
@@ -1042,6 +1092,11 @@ static void wait_ret(struct env_wait *w, int n)
 		}
 	}
 	mc_obs("r%d", n);
+	if (drift_ns) {
+		/* wall-clock time passes while the loop runs, also when it never sleeps; the library re-reads
+		 * the clock after every poll, so this needs no iv_invalidate_now() from the application */
+		env_advance_ns(drift_ns);
+	}
 }
 
 static void end_checks(const char *why)
@@ -1220,6 +1275,10 @@ static const struct seed seeds[] = {
 	/* 24 */ { "fd0-in-fed,fd1-in-fed,fd2-in-fed", 0, { A(OP_FD_REG, 0, 0, 0), A(OP_FD_REG, 1, 0, 0), A(OP_FD_REG, 2, 0, 0), A(OP_FD_FEED, 0, 0, 0), A(OP_FD_FEED, 1, 0, 0), A(OP_FD_FEED, 2, 0, 0), END } },
 	/* 25 */ { "seven-timers", 0, { A(OP_TM_REG, 0, 4, 0), A(OP_TM_REG, 1, 9, 0), A(OP_TM_REG, 2, 6, 0), A(OP_TM_REG, 3, 10, 0), A(OP_TM_REG, 4, 11, 0),
 				  A(OP_TM_REG, 5, 5, 0), A(OP_TM_REG, 6, 7, 0), END } },
+	/* 26 */ { "fd0-err-only,fd1-in-idle", 0, { A(OP_FD_REG, 0, 4, 0), A(OP_FD_REG, 1, 0, 0), END } },
+	/* 27 */ { "task-chain,timer+10ms,fd0-idle", 0, { A(OP_TK_REG, 0, 0, 0), A(OP_TM_REG, 0, 4, 0), A(OP_FD_REG, 0, 0, 0), END } },
+	/* 28 */ { "fd0-err-only,fd1-in-fed", 0, { A(OP_FD_REG, 0, 4, 0), A(OP_FD_REG, 1, 0, 0), A(OP_FD_FEED, 1, 0, 0), END } },
+	/* 29 */ { "fd0-err-only-hup,fd1-in-idle", 0, { A(OP_FD_REG, 0, 4, 0), A(OP_FD_REG, 1, 0, 0), A(OP_FD_PCLOSE, 0, 0, 0), END } },
 };
 #define NSEEDS ((int)(sizeof(seeds) / sizeof(seeds[0])))
 
@@ -1289,6 +1348,7 @@ static void exec_one(void)
 	fault_emfile = mc_arg_int("emfile", 0);
 	fault_sc = mc_arg_int("sc_fault", 0);
 	use_hash = mc_arg_int("hash", 0);
+	drift_ns = mc_arg_int("drift_ns", 0);
 	nofree = mc_arg_int("nofree", 0);
 	tkkeep = mc_arg_int("tkkeep", 0);
 	rules = mc_arg("rules", "all");
@@ -1329,6 +1389,11 @@ static void exec_one(void)
 		method_idx = methods[mc_choose(nm, MC_CONFIG, "method")];
 		env_exclude_methods = method_excl[method_idx];
 	}
+	if (mc_arg_int("poisons", 0)) {
+		/* what uninitialised caller memory looks like is not ours to choose: a few byte patterns */
+		static const int pz[4] = { 0xbe, 0x01, 0x03, 0x07 };
+		poison = pz[mc_choose(4, MC_CONFIG, "poison-byte")];
+	}
 	si = seedl[mc_choose(ns, MC_CONFIG, "seed")];
 	if (si < 0 || si >= NSEEDS)
 		mc_broken("bad seed index %d", si);
@@ -1344,10 +1409,42 @@ next_cycle:
 		if (!env_sc_errno[ENV_SC_TIMERFD_CREATE] && !env_sc_errno[ENV_SC_PPOLL])
 			FAIL("method-select", "excluded \"%s\" but the library selected %s", env_exclude_methods, iv_poll_method_name());
 	}
+	if (mc_arg_int("cloexec_probe", 0)) {
+		/* a write-only descriptor (pipe write end) handed to the library must come back non-blocking and close-on-exec too */
+		int pp[2], fl;
+		struct iv_fd *pf = malloc(sizeof(*pf));
+		if (pipe(pp) < 0)
+			mc_broken("pipe");
+		memset(pf, poison, sizeof(*pf));
+		IV_FD_INIT(pf);
+		pf->fd = pp[1];
+		pf->cookie = NULL;
+		pf->handler_out = NULL;
+		if (mc_choose(2, MC_CONFIG, "probe-via-try")) {
+			in_try = 1;
+			if (iv_fd_register_try(pf) != 0)
+				FAIL("try-failed", "iv_fd_register_try failed on a pipe write end");
+			in_try = 0;
+		} else {
+			iv_fd_register(pf);
+		}
+		fl = fcntl(pp[1], F_GETFL);
+		if (!(fl & O_NONBLOCK))
+			FAIL("fd-mode", "registered write-only descriptor not switched to O_NONBLOCK");
+		fl = fcntl(pp[1], F_GETFD);
+		if (!(fl & FD_CLOEXEC))
+			FAIL("fd-mode", "registered write-only descriptor not switched to FD_CLOEXEC");
+		iv_fd_unregister(pf);
+		memset(pf, 0xbe, sizeof(*pf));
+		free(pf);
+		close(pp[0]);
+		close(pp[1]);
+	}
 	autofeed_left = 0;
 	for (i = 0; sd->a[i].op >= 0; i++)
 		perform(&sd->a[i]);
 	autofeed_left = sd->autofeed;
+	autotask_left = mc_arg_int("autotask", 0);
 	for (i = 0; i < setup_acts; i++) {
 		int n = build_menu(menu, 128, 0);
 		c = mc_choose(1 + n, MC_ACTION, "setup");
